@@ -286,7 +286,8 @@ pub fn eval_val(code: &str, opts: &Opts) -> (Result<Val, Error>, Session) {
 	let sess = new_session(&o);
 	let state = sess.state.clone();
 	let _entered = state.enter();
-	let _lim = limit_stack_depth(opts.max_stack);
+	// max_stack 0 = leave the thread's own limit alone (the default of 200 frames, counted from depth 0)
+	let _lim = (opts.max_stack > 0).then(|| limit_stack_depth(opts.max_stack));
 	let r = (|| -> Result<Val, Error> {
 		let v = if let Some(n) = &opts.as_import {
 			// the default parser only (the resolver path goes through parse_jsonnet)
@@ -333,7 +334,7 @@ pub fn eval_traced(code: &str, opts: &Opts) -> (Outcome, Vec<(String, String)>) 
 		let out = match r {
 			Ok(v) => {
 				let _e = state.enter();
-				let _lim = limit_stack_depth(opts.max_stack);
+				let _lim = (opts.max_stack > 0).then(|| limit_stack_depth(opts.max_stack));
 				match v.manifest(JsonFormat::minify()) {
 					Ok(s) => Outcome::Val(s),
 					Err(e) => outcome_of_err(&e),
